@@ -292,3 +292,54 @@ def contract_function(module, name, condition, snapshots=()):
     rebind(real, g)
     setattr(module, name, g)
     return g
+
+
+# ------------------------------------------------------------------------------------------
+# the same calls from several threads at once
+# ------------------------------------------------------------------------------------------
+def concurrent_vs_alone(groups, switch_interval=1e-5, timeout=180):
+    """groups: one list of zero-argument callables per thread. All threads run at once (with a short
+    interpreter switch interval, so that Python-level callbacks of root finders and quadratures are
+    interleaved often); afterwards every callable is called again alone. Returns
+    (mismatches, errors, n_calls): mismatches = [(thread, index, concurrent value, alone value)].
+    Pure functions of their arguments have no mismatches; a module-level scratch buffer does."""
+    import threading
+
+    out = [[None] * len(g) for g in groups]
+    errs = []
+
+    def work(k):
+        for i, f in enumerate(groups[k]):
+            try:
+                out[k][i] = f()
+            except Exception as e:  # noqa: BLE001
+                errs.append((k, i, repr(e)))
+                out[k][i] = ("raised", type(e).__name__)
+
+    old = sys.getswitchinterval()
+    sys.setswitchinterval(switch_interval)
+    try:
+        th = [threading.Thread(target=work, args=(k,), daemon=True) for k in range(len(groups))]
+        for t in th:
+            t.start()
+        for t in th:
+            t.join(timeout)
+    finally:
+        sys.setswitchinterval(old)
+    if any(t.is_alive() for t in th):
+        errs.append((-1, -1, "thread still running after the time-out"))
+        return [], errs, 0
+    bad = []
+    n = 0
+    for k, g in enumerate(groups):
+        for i, f in enumerate(g):
+            try:
+                alone = f()
+            except Exception as e:  # noqa: BLE001
+                alone = ("raised", type(e).__name__)
+            n += 1
+            a, b = out[k][i], alone
+            same = (a == b) if isinstance(a, tuple) or isinstance(b, tuple) else bool(np.array_equal(np.asarray(a, dtype=float), np.asarray(b, dtype=float), equal_nan=True))
+            if not same:
+                bad.append((k, i, a, b))
+    return bad, errs, n
